@@ -84,12 +84,17 @@ class ConstantExpressionEvaluator:
         raise NotImplementedError()
 
     def eval_cast(self, expr):
-        """Evaluate cast expression."""
+        """Evaluate cast expression (explicit or implicit)."""
         value = self.eval_expr(expr.expr)
 
         # do some real casting:
-        if expr.typ.is_integer:
-            value = int(value)
+        if expr.typ.is_integer_or_enum:
+            if isinstance(value, float):
+                # Conversion to an integer discards the fraction:
+                value = int(value)
+            # A value which does not fit is reduced modulo 2^n,
+            # like a cast at run time does:
+            value = self.to_integer_type(expr.typ, value)
         elif expr.typ.is_float or expr.typ.is_double:
             value = float(value)
         else:
